@@ -378,8 +378,12 @@ def run(ctx):
                       {"log_tail": log[-2000:]}, no_input=True)
         return
     ctx.build_libs(["orange"])
-    exe = ctx.compile_harness([os.path.join(HERE, "harness", "build_probe.cc")], "build_probe",
-                              libs=["orange", "geocel", "corecel"])
+    # self-test hook (BUILDING.md "testing against mutations"): extra .cc files (mutated copies of
+    # library sources) compiled INTO the harness interpose the library's definitions
+    extra_src = [x for x in os.environ.get("C09_EXTRA_SRC", "").split(":") if x]
+    incs = ["-I%s/src/orange/%s" % (vlib.REPO, d) for d in ("orangeinp", "orangeinp/detail", "surf", "surf/detail", "")]
+    exe = ctx.compile_harness([os.path.join(HERE, "harness", "build_probe.cc")] + extra_src, "build_probe",
+                              libs=["orange", "geocel", "corecel"], extra=incs if extra_src else ())
 
     # ---------------- generate -------------------------------------------
     inp = ["tol %s" % float(TOL).hex()]
